@@ -10,13 +10,13 @@ use super::r64_shim::*;
 use super::coll_shim::*;
 use super::nd_shim::*;
 
-pub(crate) struct Dual {
+pub struct Dual {
     pub(crate) real: R64,
     pub(crate) vars: Arc<IndexSet<String>>,
     pub(crate) dual: Array1<R64>,
 }
 
-pub(crate) struct Dual2 {
+pub struct Dual2 {
     pub(crate) real: R64,
     pub(crate) vars: Arc<IndexSet<String>>,
     pub(crate) dual: Array1<R64>,
@@ -72,7 +72,7 @@ impl Clone for Dual2 {
     }
 }
 
-pub(crate) enum VarsRelationship { ArcEquivalent, ValueEquivalent, Superset, Subset, Difference }
+pub enum VarsRelationship { ArcEquivalent, ValueEquivalent, Superset, Subset, Difference }
 
 impl Clone for VarsRelationship {
     fn clone(&self) -> (r: Self) ensures r == *self {
